@@ -249,8 +249,7 @@ func TestC20(t *testing.T) {
 			msg, _ = checkBatchText([]byte(rp.Text))
 		}
 		if msg != "" {
-			st.Violate(msg, rp)
-			t.Fatal(msg)
+			fail(st, t, msg, rp)
 		}
 		return
 	}
@@ -285,8 +284,7 @@ func TestC20(t *testing.T) {
 				st.Sample(map[string]interface{}{"text": trunc(text, 500), "mutations": kinds, "verdict": class})
 			}
 			if msg != "" {
-				st.Violate(msg, map[string]string{"kind": "batch", "text": text})
-				rt.Fatalf("%s", msg)
+				fail(st, rt, msg, map[string]string{"kind": "batch", "text": text})
 			}
 		})
 	})
@@ -307,8 +305,7 @@ func TestC20(t *testing.T) {
 				st.Sample(map[string]string{"amount": s, "verdict": cls})
 			}
 			if msg != "" {
-				st.Violate(msg, map[string]string{"kind": "amount", "text": s})
-				rt.Fatalf("%s", msg)
+				fail(st, rt, msg, map[string]string{"kind": "amount", "text": s})
 			}
 		})
 	})
